@@ -469,7 +469,7 @@ func (c14Engine) Exec(t *testing.T, cc any) *simrt.Result {
 		f1, f2 := c.FailPair[0]%N+1, c.FailPair[1]%N+1
 		plan.FailAt = 0
 		// attempt-relative numbering: re-arm at every begin
-		base := 0
+		base, injected := 0, 0
 		plan.Hook = func(n int, what string) error {
 			if what == "begin" {
 				attempt++
@@ -477,6 +477,7 @@ func (c14Engine) Exec(t *testing.T, cc any) *simrt.Result {
 			}
 			rel := n - base
 			if (attempt == 1 && rel == f1) || (attempt == 2 && rel == f2) {
+				injected++
 				return simrt.ErrInjected
 			}
 			return nil
@@ -493,9 +494,9 @@ func (c14Engine) Exec(t *testing.T, cc any) *simrt.Result {
 		sim.Advance(2*time.Second + 10*time.Millisecond) // second back-off
 		plan.Disarm()
 		plan.Hook = nil
-		if attempt < 3 && attempt != 0 {
-			// the third attempt must have happened after two failures
-			fail("retry-missing", nil, "after two injected failures and 3s of simulated time only %d attempt(s) were made", attempt)
+		if attempt != 0 && attempt != injected+1 {
+			// every failed attempt must have been followed by another one
+			fail("retry-missing", nil, "after %d injected failure(s) and 3s of simulated time %d attempt(s) were made", injected, attempt)
 		}
 		if q, qerr := c14Ask(dh, probes); qerr != nil {
 			fail("query-error", nil, "after handler retries: %v", qerr)
